@@ -193,6 +193,20 @@ CHECKS = {
             "equals sampling on the grid. Does not decide: interpolated values themselves (torch kernel vs ITK interpolators), float "
             "rounding of coordinates, behaviour at the outermost half voxel (padding conventions differ between torch and ITK).",
             "DESIGN.md 4/C05"),
+    "C18": (True, "E5(T18)+format models",
+            "abstract interpretation of deepali's reader/writer code (write_image/read_image dispatch, native MetaImage codec, nibabel and "
+            "SimpleITK routes, Image/FlowField/Grid entry points) against specification models of numpy, io/zlib, SimpleITK, nibabel and "
+            "the MetaIO / ITK-NIfTI header conventions; symbolic voxels and symbolic oriented grids",
+            "Decides for formats {.mha native, .nii/.nii.gz via nibabel, .nrrd/.mhd via SimpleITK}, D in {2,3}, 1-3 channels, dtypes "
+            "{uint8,int16,int32,float32,float64} (quick: a covering subset), compress on/off: write then read returns the same voxel "
+            "values, channel count, data type and grid (size, origin, spacing, direction) as symbolic identities; a library-written .mha "
+            "parsed by the MetaIO tag reference (ElementType table, DimSize order, TransformMatrix = direction cosines per axis, channel "
+            "interleaving, CompressedDataSize) and a library-written NIfTI read by ITK's conventions give the same image, and reference-"
+            "written files are read identically; Image.write/read/sitk/from_sitk, Grid.from_file, FlowField.write/read/sitk/from_sitk "
+            "store world vectors and return to the original axes. 13 KNOWN findings (2-D and multi-channel NIfTI). Does not decide: the "
+            "third-party libraries' own behaviour beyond the documented contracts modelled in sa/iomodel.py, byte order, remote storage, "
+            "float32 precision of NIfTI sform.",
+            "DESIGN.md 4/C18"),
 }
 
 NOT_BUILT_REASON = "static check for this property is designed (DESIGN.md section 4) but not yet built in this revision"
